@@ -135,6 +135,8 @@ def oracle(run, deep):
     keyword_lambda_equivalence(run)
     composite_host_contexts(run)
     variable_dispatch_histories(run)
+    binding_names(run)
+    structural_keys(run)
     g = ec.Gen(run.rng, tick_p=0.0, hist={})
     n = run.n(300, 4000) * (3 if deep else 1)
     for _ in range(n):
@@ -384,6 +386,85 @@ def variable_dispatch_histories(run):
                     return
 
 
+def python_parameter_names():
+    """every Python-level parameter name of every registered definition (hidden ones included): names a host function
+    may use internally must stay ordinary variable / keyword names for yaql programs"""
+    import yaql
+    names = set()
+    c = yaql.create_context(delegates=True)
+    while c is not None:
+        for fds in getattr(c, "_functions", {}).values():
+            for fd in fds:
+                for k, pd in fd.parameters.items():
+                    for n in (k, getattr(pd, "name", None), getattr(pd, "alias", None)):
+                        if isinstance(n, str) and n.strip("*_").isidentifier():
+                            names.add(n.strip("*"))
+        c = c.parent
+    names |= {"context", "engine", "receiver", "args", "kwargs", "self", "func", "name", "value", "data", "sender", "cls", "options"}
+    return sorted(n for n in names if n and not n.startswith("__"))
+
+
+def binding_names(run):
+    """A name bound by let / with-chains / a def'd function's keyword argument is an ordinary variable whatever it is
+    spelled like - also when it coincides with a parameter name the library uses internally."""
+    eng = ec.engine()
+    import yaql
+    names = python_parameter_names()
+    run.note("binding-name sweep over %d parameter names of the registry" % len(names))
+    for nm in names:
+        if nm in ("true", "false", "null", "and", "or", "not", "in", "mod"):
+            continue
+        rows = [("let(%s => 7) -> $%s + 1" % (nm, nm), 8),
+                ("let(%s => 7, q9 => 1) -> [$%s, $q9]" % (nm, nm), [7, 1]),
+                ("let(1, %s => [2]) -> [$1, $%s]" % (nm, nm), [1, [2]]),
+                ("def(f, $%s) -> f(%s => 5)" % (nm, nm), 5),
+                ("def(f, [$1, $%s]) -> f(3, %s => 5)" % (nm, nm), [3, 5]),
+                ("let(%s => 1) -> let(%s => 2) -> $%s" % (nm, nm, nm), 2),
+                ("[1, 2].select(let(%s => $) -> $%s * 2).toList()" % (nm, nm), [2, 4])]
+        for text, want in rows:
+            got = _outcome(eng, text, None, yaql.create_context())
+            run.case(("bindname", text), nontrivial=True)
+            run.count("binding_name_row")
+            if got != ("ok", repr(want)):
+                run.fail("violation", "a variable / keyword argument cannot be bound under an ordinary name (the name collides with "
+                                      "something internal to the library)",
+                         {"binding_name": nm, "program": text, "variant": text, "data": None, "observed": repr(got), "original": repr(("ok", repr(want)))})
+                return
+
+
+def structural_keys(run):
+    """Maps and lists are values: a map (or a list holding maps) used as a KEY addresses its entry whatever order its
+    own pairs were written in - equal keys are one key."""
+    import yaql
+    eng = ec.engine()
+    rng = run.rng
+    for _ in range(run.n(40, 400)):
+        n = rng.randrange(2, 4)
+        ks = rng.sample(["a", "b", "c", "d"], n)
+        vs = [rng.choice(["1", "2", "'x'", "[1]", "null", "{z => 1}"]) for _ in ks]
+        pairs = list(zip(ks, vs))
+        perm = pairs[:]
+        while perm == pairs:
+            rng.shuffle(perm)
+        K = "{%s}" % ", ".join("%s => %s" % p for p in pairs)
+        K2 = "{%s}" % ", ".join("%s => %s" % p for p in perm)
+        rows = [("{%s => 7}[%s]" % (K, K2), 7), ("{%s => 7}[%s, 0]" % (K, K2), 7), ("{%s => 7, %s => 8}.len()" % (K, K2), 1),
+                ("{%s => 7, %s => 8}[%s]" % (K, K2, K), 8), ("{[%s] => 7}[[%s]]" % (K, K2), 7), ("dict(%s => 5).get(%s)" % (K, K2), 5),
+                ("%s = %s" % (K, K2), True), ("{%s => 7}.keys().toList()[0] = %s" % (K, K2), True),
+                ("{%s => 1}.containsKey(%s)" % (K, K2), True), ("%s in {%s => 1}.keys()" % (K2, K), True)]
+        for text, want in rows:
+            got = _outcome(eng, text, None, yaql.create_context())
+            run.case(("structkey", text), nontrivial=True)
+            run.count("structural_key_row")
+            if got[0] == "err" and got[1] in ("NoMatchingMethodException", "NoMethodRegisteredException"):
+                continue
+            if got != ("ok", repr(want)):
+                run.fail("violation", "a map used as a key does not address its entry when its own pairs are written in another order "
+                                      "(equal keys are not one key)",
+                         {"structural_key": True, "program": text, "variant": text, "data": None, "observed": repr(got), "original": repr(("ok", repr(want)))})
+                return
+
+
 LAMBDA_BODIES = ["$", "$ * 10", "$ > 1", "[$, $]", "$ + $k", "sq($)", "[$1, $2]", "$1 > $2", "$[0]", "$.len()"]
 RECEIVERS = ["[1, 2, 3]", "[[1, a], [1, b], [2, c]]", "[[3, 4], [1]]", "{a => 1, b => 2}", "[3, 1, 2].select($ + 1)"]
 PLAIN_ARGS = ["1", "[2, 5]", "{b => 3}", "true"]
@@ -471,10 +552,11 @@ class _Probe:
 
 def replay(run, data):
     d = data.get("data", {})
-    if "context" in d or "convention" in d or "host_shape" in d or "dispatch_history" in d:
+    if "context" in d or "convention" in d or "host_shape" in d or "dispatch_history" in d or "binding_name" in d or "structural_key" in d:
         probe = _Probe(run.rng)
         (attribution_is_mapped_access if "context" in d else keyword_lambda_equivalence if "convention" in d
-         else composite_host_contexts if "host_shape" in d else variable_dispatch_histories)(probe)
+         else composite_host_contexts if "host_shape" in d else variable_dispatch_histories if "dispatch_history" in d
+         else binding_names if "binding_name" in d else structural_keys)(probe)
         return not probe.failed
     if "variant" in d:
         return repr(ec.run_real(d["variant"], d["data"])[1]) == repr(ec.run_real(d["program"], d["data"])[1])
